@@ -285,6 +285,23 @@ def handle (line : String) : String :=
         (hdr ++ contents mips.flatten) (textureWf hdr mips))) with
     | some r => r
     | none => bad
+  | ["texgap", units, suffix, hdr, mips, gaps] =>
+    -- mip chains with filler between them (`Spec.packTextureG`; gap lengths joined by `|`):
+    -- correspondence only, the theorem `c02_texture` is about chains back to back
+    match (do
+      let hdr ← Bytes.ofHexFast hdr
+      let mips ← (mips.splitOn "|").mapM parseBlocks
+      let gl ← (gaps.splitOn "|").mapM (·.toNat?)
+      let gs := gl.zipIdx.map fun (n, i) => filler n (11 + i)
+      let units ← units.toNat?
+      let suffix ← suffix.toNat?
+      let file := filler (units * 128) 3 ++ packTextureG hdr mips gs ++ filler suffix 5
+      let model := Dat.readFromOffset (inflateOf mips.flatten) file (units * 128)
+      if !textureGWf hdr mips gs then none else
+      some (answer (toString (units * 128) ++ " " ++ Bytes.toHex file)
+        (Bytes.toHex (hdr ++ contents mips.flatten)) ["corr"] (some (showRes model)))) with
+    | some r => r
+    | none => bad
   | ["mdl", units, suffix, mt, secs] =>
     match (do
       let m ← parseMeta mt
